@@ -6,6 +6,7 @@ package main
 //   iofs_sub_validates     = 1 iff IOFS.Sub calls fs.ValidPath
 //   iofs_sub_dot_self      = 1 iff IOFS.Sub compares its argument with "." (and returns the receiver)
 //   fromiofs_openfile_mask = M  iff FromIOFS.OpenFile tests flag&M (M an |-expression of os.O_* names); 0 = no test
+//   regexp_readdir_refills = 1 iff RegexpFile.Readdir loops over the source's pages (Model/Regexp.v re_readdir)
 // The correspondence run checks the answers: a wrong guess shows as model-vs-implementation mismatches.
 
 import (
@@ -105,6 +106,23 @@ func iofsConsts(repo string, add func(string, int64, string)) error {
 		}
 		return true
 	})
+	// regexpfs.go RegexpFile.Readdir: a `for` statement (not a range) that contains the call to the source's Readdir
+	rp, err := parseSrc(repo, "regexpfs.go")
+	if err != nil {
+		return err
+	}
+	rd := rp.fn("RegexpFile", "Readdir")
+	if rd == nil {
+		return fmt.Errorf("regexpfs.go: RegexpFile.Readdir not found")
+	}
+	refills := false
+	ast.Inspect(rd, func(n ast.Node) bool {
+		if fs, ok := n.(*ast.ForStmt); ok && callsSelector(fs.Body, "Readdir") {
+			refills = true
+		}
+		return true
+	})
+	add("regexp_readdir_refills", b2i(refills), "regexpfs.go RegexpFile.Readdir: 1 iff a page (n > 0) whose entries are all filtered out is replaced by the next one")
 	add("fromiofs_openfile_mask", mask, "iofs.go FromIOFS.OpenFile: permission error iff flag&MASK != 0 (0 = the flag is ignored)")
 	return nil
 }
